@@ -58,3 +58,24 @@ Qed.
 
 Lemma KInv_reach ops : KInv ops (krun ops).
 Proof. apply (KInv_run ops [] (mkk false [] [])). split; cbn; auto. Qed.
+
+(** Why BOTH ends must replace the compression context at NEWKEYS.  A toy streaming codec with the one feature of
+    zlib that matters here: a fresh deflate stream starts with a header (120 = 0x78) which only a fresh inflate
+    context strips.  Context = "header already sent / seen". *)
+Definition toy_comp (c : bool) (x : bytes) : bytes * bool := if c then (x, true) else (120 :: x, true).
+Definition toy_decomp (z : bool) (y : bytes) : option (bytes * bool) :=
+  if z then Some (y, true) else match y with 120 :: r => Some (r, true) | _ => None end.
+
+(** fresh on both ends (what _newKeys does for both directions): round trip, and the contexts stay in step *)
+Example fresh_contexts_round_trip : forall x,
+  toy_decomp false (fst (toy_comp false x)) = Some (x, true) /\ toy_decomp true (fst (toy_comp true x)) = Some (x, true).
+Proof. intro x. split; reflexivity. Qed.
+
+(** sender re-keyed (fresh deflate stream), receiver kept its old inflate context: the payload does not come back *)
+Example stale_inflate_context_fails : forall x,
+  toy_decomp true (fst (toy_comp false x)) <> Some (x, true).
+Proof.
+  assert (Hc : forall (l : bytes) a, a :: l <> l).
+  { induction l as [|b r IH]; intros a H; [discriminate|]. inversion H as [[Ha Hr]]. exact (IH b Hr). }
+  intros x H. cbn in H. inversion H as [E]. exact (Hc x 120 E).
+Qed.
